@@ -22,22 +22,43 @@ def _mk(side, kind, q, p, ro=False):
     return o
 
 
+def _snap2(w, o, kind):
+    ex = w['exchange']
+    base = (o.status, o.canceled_at, o.executed_at, o.qty, o.price)
+    if kind == 'spot':
+        return base + (tuple(sorted((k, round(v, 9)) for k, v in ex.assets.items())), w['positions']['BTC-USDT'].qty)
+    return base + _snapshot(w) + (tuple(sorted((k, round(v, 9)) for k, v in ex.available_assets.items())),)
+
+
 def lifecycle():
-    for first, second in (('execute', 'execute'), ('execute', 'cancel'), ('cancel', 'cancel'), ('cancel', 'execute')):
-        w = session('futures', leverage=2, fee=0.001)
-        w['positions']['BTC-USDT'].current_price = 100.0
-        o = _mk('buy', 'LIMIT', 1.5, 100.0)
-        s0 = _snapshot(w)
-        getattr(o, first)()
-        s1 = _snapshot(w)
-        st1 = o.status
-        if (first == 'execute') != (s1 != s0 and o.is_executed) and first == 'execute':
-            return f'{first} of an active order had no effect'
-        getattr(o, second)()
-        s2 = _snapshot(w)
-        if s2 != s1 or o.status != st1:
-            return (f'{first}() then {second}() on the same order: state changed from {s1} to {s2}, status {st1} -> {o.status} '
-                    '(wallet, available margin, position qty, entry, closed trades, trade orders, trade rows)')
+    import jesse.helpers as jh
+    from jesse.store import store
+    for kind in ('futures', 'spot'):
+        for otype in ('LIMIT', 'STOP', 'MARKET'):
+            for side in ('buy', 'sell'):
+                for first, second in (('execute', 'execute'), ('execute', 'cancel'), ('cancel', 'cancel'), ('cancel', 'execute')):
+                    w = session(kind, leverage=2, fee=0.001) if kind == 'futures' else session(kind, fee=0.001)
+                    w['positions']['BTC-USDT'].current_price = 100.0
+                    if kind == 'spot':
+                        if side == 'sell':
+                            b0 = _mk('buy', 'MARKET', 3.0, 100.0)
+                            b0.execute()
+                        price = 100.0 if otype == 'MARKET' else ((90.0 if otype == 'LIMIT' else 110.0) if side == 'buy' else (110.0 if otype == 'LIMIT' else 90.0))
+                    else:
+                        price = 100.0
+                    o = _mk(side, otype, 1.5, price)
+                    s0 = _snap2(w, o, kind)
+                    store.app.time += 60000
+                    getattr(o, first)()
+                    s1 = _snap2(w, o, kind)
+                    if first == 'execute' and not (s1 != s0 and o.is_executed):
+                        return f'{kind}: execute of an active {otype} {side} order had no effect'
+                    store.app.time += 60000
+                    getattr(o, second)()
+                    s2 = _snap2(w, o, kind)
+                    if s2 != s1:
+                        return (f'{kind}: {first}() then {second}() on the same {otype} {side} order changed the state a second time: '
+                                f'{s1} -> {s2} (status, canceled_at, executed_at, qty, price, balances, position, trades)')
     return None
 
 
